@@ -150,13 +150,23 @@ func cmdCheck(args []string) {
 		}
 		return strings.HasPrefix(o.Kind, "store.global") || strings.HasPrefix(o.Kind, "escape.global") || strings.HasPrefix(o.Kind, "arg.global")
 	}
+	// a further instance (#k) of a labelled contract clause all of whose instances on the
+	// unchanged tree are in the baseline: the clause is the unit of proof, so a failing new
+	// instance (e.g. an additional loop exit) is a failure of that clause
+	isNewInstance := func(o *Obl) bool {
+		if everSeen == nil || everSeen[o.Name] || !o.Labeled {
+			return false
+		}
+		i := strings.LastIndex(o.Name, "#")
+		return i > 0 && baseline[o.Name[:i]]
+	}
 	sel := func(o *Obl) bool {
 		if !hasProp(o, pset) {
 			return false
 		}
 		if *tier == "quick" && baseline != nil && !*mkBaseline {
 			// quick tier: the committed baseline obligations, the known findings, and new global-region obligations
-			return baseline[o.Name] || matchKnown(known, *prop, o.Name) != nil || isNewFrame(o)
+			return baseline[o.Name] || matchKnown(known, *prop, o.Name) != nil || isNewFrame(o) || isNewInstance(o)
 		}
 		return true
 	}
@@ -271,7 +281,7 @@ func cmdCheck(args []string) {
 				// not in the baseline: only a reproduced counterexample counts, except for
 				// global-region obligations of code that is new since the baseline
 				path := writeReplay(*prop, r, o)
-				if o.Replayed || isNewFrame(o) {
+				if (o.Replayed && o.ReplayFull) || isNewFrame(o) || isNewInstance(o) {
 					total++
 					violations++
 					sfx := ""
